@@ -1,6 +1,7 @@
 package gvc
 
 import (
+	"sync"
 	"encoding/json"
 	"fmt"
 	"os"
@@ -21,7 +22,82 @@ type PropertyPlan struct {
 
 var Plans = map[string]*PropertyPlan{}
 
+func specialC04(p *Program, tier string) []UnitSpec {
+	var out []UnitSpec
+	for _, fn := range p.EntryPoints() {
+		// (a) the body of every parser / decoder / lookup: no panic for any input
+		out = append(out, UnitSpec{Fn: fn, Opt: Options{UseRequires: true}, Why: "root", Kind: "sweep"})
+		// (b) every exported method on every value the function can return
+		// without error - through the function's contract where it has one
+		if p.ContractOf(fn) != nil {
+			out = append(out, UnitSpec{Fn: fn, Opt: Options{UseRequires: true, MethodsOnSuccess: true, ViaContract: true}, Why: "root", Kind: "methods"})
+		}
+	}
+	return out
+}
+
+// specialC20: (a) every exported argument-free method on the zero value of
+// every exported struct/array/slice type, (b) the same methods on the value a
+// parser returns together with an error.
+func specialC20(p *Program, tier string) []UnitSpec {
+	var out []UnitSpec
+	for _, fn := range p.EntryPoints() {
+		out = append(out, UnitSpec{Fn: fn, Opt: Options{UseRequires: false, MethodsOnError: true}, Why: "root", Kind: "sweep"})
+	}
+	for _, fn := range p.AllRepoFuncs() {
+		if !Exported(fn) || fn.Signature.Recv() == nil || fn.Signature.Params().Len() != 0 {
+			continue
+		}
+		out = append(out, UnitSpec{Fn: fn, Opt: Options{ZeroRecv: true}, Why: "root", Kind: "zero"})
+	}
+	return out
+}
+
+// mutators: methods that are meant to write their receiver (excluded from the
+// read-only frame obligations of C18).
+var mutatorNames = map[string]bool{"SetBytes": true, "AddAddress": true, "Add": true, "WithType": true, "WithPayload": true, "WithKeyTypes": true, "WithSigningType": true, "WithCryptoType": true, "Build": true}
+
+// specialC18: every exported read-only method of every type, and every
+// exported function that only takes plain data, must not store into memory
+// that existed before the call nor into package-level state.
+func specialC18(p *Program, tier string) []UnitSpec {
+	var out []UnitSpec
+	cfg := DefaultConfig()
+	cfg.FrameCheck = true
+	cfg.Safety = false
+	cfg.QuickLoopCap = 1
+	for _, fn := range p.AllRepoFuncs() {
+		if !Exported(fn) {
+			continue
+		}
+		if fn.Signature.Recv() != nil {
+			if mutatorNames[fn.Name()] {
+				continue
+			}
+		} else {
+			ok := len(fn.Params) > 0
+			for _, prm := range fn.Params {
+				if !plainParam(prm.Type()) {
+					ok = false
+				}
+			}
+			if !ok {
+				continue
+			}
+		}
+		c := cfg
+		out = append(out, UnitSpec{Fn: fn, Opt: Options{UseRequires: true}, Cfg: &c, Why: "root", Kind: "frame"})
+	}
+	return out
+}
+
 func init() {
+	defer func() {
+		Plans["C04"].Special = specialC04
+		Plans["C20"].Special = specialC20
+		Plans["C18"].Special = specialC18
+		Plans["C18"].Note = "Decided by reduction: every read-only operation is proved to store only into memory it allocated itself and into no package-level variable (sequential frame condition); by the Go memory model any interleaving of such operations on shared values is then race-free and each call returns what it returns alone. The step from the frame condition to all interleavings is this stated meta-theorem, not something the solver checked."
+	}()
 	for _, id := range []string{"C01", "C02", "C03", "C04", "C05", "C06", "C07", "C08", "C09", "C10", "C11", "C12", "C13", "C14", "C15", "C16", "C17", "C18", "C19", "C20"} {
 		Plans[id] = &PropertyPlan{ID: id, Level: "proof"}
 	}
@@ -87,7 +163,7 @@ func RunProperty(repo, verifDir, prop, tier string, seed int) int {
 		return 2
 	}
 	cfg := DefaultConfig()
-	cfg.QuickLoopCap = 2
+	cfg.QuickLoopCap = 1
 	if tier == "thorough" {
 		cfg.QueryMs = 30000
 		cfg.MaxPaths = 20000
@@ -119,12 +195,22 @@ func RunProperty(repo, verifDir, prop, tier string, seed int) int {
 	if plan.Special != nil {
 		specs = append(specs, plan.Special(p, tier)...)
 	}
+	if os.Getenv("GVC_PROGRESS") != "" {
+		Progress = func(r *UnitResult) { fmt.Fprintln(os.Stderr, "done:", r.Summary()) }
+	}
 	units := p.closeOverContracts(cfg, specs)
 	obls, order := mergeObls(units)
 
 	// portfolio pass over everything not proved by the incremental solver
 	solverCount := map[string]int{}
 	var solverTime float64
+	var pmu sync.Mutex
+	var pwg sync.WaitGroup
+	psem := make(chan struct{}, 10)
+	ptimeout := 12 * time.Second
+	if tier == "thorough" {
+		ptimeout = 90 * time.Second
+	}
 	for _, n := range order {
 		o := obls[n]
 		solverTime += o.TimeS
@@ -139,34 +225,45 @@ func RunProperty(repo, verifDir, prop, tier string, seed int) int {
 		if o.Script == "" {
 			continue
 		}
-		for _, bin := range []string{"z3-new", "z3"} {
-			r, d := RunScript(bin, o.Script, 20*time.Second)
-			solverTime += d.Seconds()
-			if r == "unsat" {
-				// proved on the recorded failing path only; other instances
-				// were proved incrementally, so the obligation is discharged
-				// iff this was the only undecided instance - keep it simple
-				// and conservative: accept only status "unknown".
-				if o.Status == "unknown" {
-					o.Status = "proved"
-					o.Solver = bin + " (standalone)"
-					solverCount[o.Solver]++
+		// portfolio on the recorded failing instance (in parallel).  "unsat"
+		// here only upgrades an "unknown" whose other instances were proved.
+		pwg.Add(1)
+		go func(o *Obligation) {
+			defer pwg.Done()
+			psem <- struct{}{}
+			defer func() { <-psem }()
+			for _, bin := range []string{"z3-new", "z3"} {
+				r, d := RunScript(bin, o.Script, ptimeout)
+				pmu.Lock()
+				solverTime += d.Seconds()
+				if r == "unsat" {
+					if o.Status == "unknown" && o.Instances-o.Trivial <= 1 {
+						o.Status = "proved"
+						o.Solver = bin + " (standalone)"
+						solverCount[o.Solver]++
+					}
+					pmu.Unlock()
+					return
 				}
-				break
+				if r == "sat" {
+					o.Status = "failed"
+					o.Solver = bin + " (standalone)"
+					pmu.Unlock()
+					return
+				}
+				pmu.Unlock()
 			}
-			if r == "sat" {
-				o.Status = "failed"
-				o.Solver = bin + " (standalone)"
-				break
-			}
-		}
+		}(o)
 	}
+	pwg.Wait()
 
 	known := loadKnown(verifDir)
 	isKnown := func(name string) *KnownFinding {
 		for i := range known {
 			k := &known[i]
-			if k.Property == prop && k.Status != "fixed" && k.Obligation == name {
+			if k.Status != "fixed" && k.Obligation == name {
+				// a finding recorded under another property is the same failing
+				// obligation when it is pulled in here as a dependency
 				return k
 			}
 		}
